@@ -56,3 +56,6 @@ CLAIMS["C15"] = dict(
 )
 NOT_APPLICABLE.pop("C15", None)
 SMT_SERVES.add("C15")
+# round 4: block-hash pruning never changes an answer (State::block_hash)
+PROPS["C20"]["jobs"] = PROPS["C20"]["jobs"] + [dict(name="e3::block_hash_pruning_keeps_answers", fn=__import__("jobs_c20").run_block_hash_pruning)]
+PROPS["C20"]["functions"] = PROPS["C20"]["functions"] + ["<State<DB> as Database>::block_hash (crates/revm/src/db/states/state.rs): prune sites, cache read sites, the query of the wrapped database"]
